@@ -20,8 +20,12 @@ RULE = ("Model-based histories (Hypothesis composite tracking inside/outside-tes
         "not an event of the history, so a reporter nobody looks at in between must end up in the same state - backed by an "
         "exhaustive grid (every reporter x 6 fixed histories x 4 probe masks); a second ThreadsafeForwardingResult on the same "
         "target reporting its own tagged tests in between (each forwarder's tests are observed with that forwarder's tags only); "
-        "an empty and a non-ASCII multi-character tag; the sets given to Tagger / PlaceHolder changed by the caller after "
-        "construction; current_tags compared as handed out (a list is not a set of tags) and the sets handed to "
+        "an empty and a non-ASCII multi-character tag (a ValueError from the very call that hands such a tag over ends the history "
+        "without a report); the sets given to Tagger / PlaceHolder changed by the caller after "
+        "construction (the Tagger / PlaceHolder may have copied them or go on looking at them: both readings are admitted), a Tagger "
+        "may apply its change at startTest or right before it forwards the outcome; the two scratch sets a reporter refills for "
+        "every tags() call; after a stopTestRun ExtendedToStreamDecorator, which starts runs on demand, may go on with the run's tags "
+        "or begin a new run; current_tags compared as handed out (a list is not a set of tags) and the sets handed to "
         "TestByTestResult's callback / kept in StreamToDict's dicts looked at after the run, one callback per stopTest (tags as at the stop or as at the outcome). "
         "PlaceHolder.run may scope its tags either way (run level around the test as today, with or without the final "
         "removal of tags that were current before, or inside the test): every reading the reporter stays consistent with is admitted. "
@@ -40,6 +44,19 @@ ASSUMPTIONS = [
     "but the same reading for every test of a history",
     "copy semantics (DESIGN 11.10): what current_tags returns is the caller's, and the tag set of a final event / a "
     "callback does not change after it was handed over",
+    "the sets passed to tags() stay the caller's: it may clear and refill them for the next call, and a result that buffers "
+    "tag changes (ThreadsafeForwardingResult) replays what it was told at the time of the call, not what the caller's set "
+    "holds later (copy semantics, DESIGN 11.10; this is what the stored change C17-r3-3 breaks).  The sets given to Tagger() "
+    "and PlaceHolder(tags=) are NOT covered by this: whether they are copied or kept by reference is not asserted",
+    "a Tagger's change is test-local and applied once per test, at startTest (before the test's own changes - today's code) "
+    "or right before the outcome is forwarded (after them); either way it is current at the outcome in the reporter and for "
+    "every observer",
+    "a stopTestRun changes no tags ('persist until the next startTestRun', and stopTestRun is not in the statement's alphabet), "
+    "except on ExtendedToStreamDecorator, which starts a run by itself whenever it is used outside one: there a stopTestRun "
+    "may also be read as the end of the run, the next call or read starting a fresh one (an implicit start by the adapter "
+    "is then the 'next startTestRun')",
+    "any str is a tag for the purposes of scoping, also '' and one with a blank; an implementation that refuses such a tag "
+    "with ValueError at the call that hands it over (tags(), PlaceHolder) is not reported - the history just ends there",
     "with two ThreadsafeForwardingResults on one target only the first one starts / stops runs on it; the second one "
     "reports whole tests (startTest, tags, addSuccess, stopTest) and run-level tags() calls between the first one's calls",
 ]
@@ -51,6 +68,8 @@ REPORTERS = ["TestResult", "TextTestResult", "TestByTestResult", "MultiTestResul
 # the usual four letters (twice: two changes must keep meeting on the same tag), an empty tag, a non-ASCII tag with a blank
 TAGS17 = H.TAGS + H.TAGS + ["", "été long"]
 TAGSET17 = st.sets(st.sampled_from(TAGS17), max_size=2)
+# reporters that start a run on demand when they are used outside one (ExtendedToStreamDecorator)
+ON_DEMAND_RUNS = ("ETSD-S2E",)
 HIST = H.s_history(max_tests=4, with_time=False, with_startless=True, with_placeholder=True, max_ops=24, loose_runs=True,
                    tagset=TAGSET17, all_tags=TAGS17)
 PROBE_AT = st.sets(st.integers(0, 29))                        # after which calls current_tags is read (always after the last)
@@ -70,8 +89,9 @@ def s_case(draw):
 
 
 def build(name, spec):
-    """-> (reporter, observers, extra, other) where observers is a list of (label, fn() -> list of tag sets at outcomes),
-    extra the (new, gone) a Tagger applies at every startTest and other a second forwarder on the same target (or None)."""
+    """-> (reporter, observers, extras, other) where observers is a list of (label, fn() -> list of tag sets at outcomes),
+    extras the (new, gone) pairs a Tagger may be applying to every test (one pair unless the caller went on using the sets it
+    gave to the constructor) and other a second forwarder on the same target (or None)."""
     from testtools.testresult import real
     import testtools
     obs = []
@@ -107,8 +127,18 @@ def build(name, spec):
         if spec.get("touch_args"):
             # the caller goes on using its two sets; the Tagger was told what to do when it was made
             given_new.add("later")
-            given_gone.update(H.TAGS)
-    extra = (set(), set())
+            given_gone.update(set(H.TAGS) - given_new)
+
+    def tagger_extras():
+        # the Tagger may have copied what it was given (today's code) or have kept the caller's objects, each set on its own
+        out = []
+        for new in (tagger_new, given_new):
+            for gone in (tagger_gone, given_gone):
+                pair = (frozenset(new), frozenset(gone))
+                if pair not in out:
+                    out.append(pair)
+        return out
+    extras = [(frozenset(), frozenset())]
     if name == "TestResult":
         r = testtools.TestResult()
     elif name == "TextTestResult":
@@ -136,13 +166,13 @@ def build(name, spec):
         e = Ext()
         r = real.Tagger(e, given_new, given_gone)
         touch()
-        extra = (tagger_new, tagger_gone)
+        extras = tagger_extras()
         ext_obs("tagger->ext", e)
     elif name == "Tagger-TSFR":
         e = Ext()
         r = real.Tagger(testtools.ThreadsafeForwardingResult(e, threading.Semaphore(1)), given_new, given_gone)
         touch()
-        extra = (tagger_new, tagger_gone)
+        extras = tagger_extras()
         ext_obs("tagger->tsfr->ext", e)
     elif name == "TestResultDecorator":
         e = Ext()
@@ -182,35 +212,52 @@ def build(name, spec):
             if s["test_status"] in streams.FINAL]))
     else:
         raise AssertionError(name)
-    return r, obs, extra, other
+    return r, obs, extras, other
 
 
 class _Reading:
     """One admissible reading of the history so far: the (global, local) model and what it says observers saw."""
 
-    def __init__(self, m=None, at_outcome=(), at_stop=()):
+    def __init__(self, m=None, at_outcome=(), at_stop=(), extra=(frozenset(), frozenset()), late=False, due=False):
         self.m = m or H.TagModel()
         self.at_outcome = list(at_outcome)
         self.at_stop = list(at_stop)
+        self.extra = extra          # what a Tagger adds to / removes from every test
+        self.late = late            # ... right before it forwards the test's outcome instead of at startTest
+        self.due = due
 
     def fork(self):
         m = H.TagModel()
         m.g = set(self.m.g)
         m.l = None if self.m.l is None else set(self.m.l)
-        return _Reading(m, self.at_outcome, self.at_stop)
+        return _Reading(m, self.at_outcome, self.at_stop, self.extra, self.late, self.due)
 
     def key(self):
         return (frozenset(self.m.g), None if self.m.l is None else frozenset(self.m.l),
-                tuple(self.at_outcome), tuple(self.at_stop))
+                tuple(self.at_outcome), tuple(self.at_stop), self.extra, self.late, self.due)
+
+    def start_test(self):
+        self.m.start_test()
+        if self.late:
+            self.due = True
+        else:
+            self.m.change(*self.extra)
 
     def outcome(self):
+        if self.due:
+            self.m.change(*self.extra)
+            self.due = False
         self.at_outcome.append(frozenset(self.m.current))
 
     def stop(self):
         self.at_stop.append(frozenset(self.m.current))
 
+    def stop_test(self):
+        self.due = False
+        self.m.stop_test()
 
-def _placeholder_readings(b, tags, extra):
+
+def _placeholder_readings(b, tags):
     """What PlaceHolder(tags).run may do to a result whose state is ``b`` (outside a test).  The first one is today's code."""
     out = []
     for how in ("run-level, removed", "run-level, restored", "inside the test"):
@@ -218,19 +265,26 @@ def _placeholder_readings(b, tags, extra):
         before = set(f.m.g)
         if how != "inside the test":
             f.m.change(tags, ())
-        f.m.start_test()
-        f.m.change(*extra)
+        f.start_test()
         if how == "inside the test":
             f.m.change(tags, ())
         f.outcome()
         f.stop()
-        f.m.stop_test()
+        f.stop_test()
         if how == "run-level, removed":
             f.m.change((), tags)
         elif how == "run-level, restored":
             f.m.g = before
         out.append(f)
     return out
+
+
+def _odd_tag_handed_over(op):
+    tags = list(op.get("new") or ()) + list(op.get("gone") or ()) + list(op.get("tags") or ())
+    tb = op.get("tags_between")
+    if tb:
+        tags += list(tb["new"]) + list(tb["gone"])
+    return any(t == "" or t != t.strip() or any(c.isspace() for c in t) for t in tags)
 
 
 def _same_tags(got, want):
@@ -245,8 +299,10 @@ def _same_tags(got, want):
 def run_case(spec):
     vs = []
     name = spec["reporter"]
-    r, obs, extra, other = build(name, spec)
-    readings = [_Reading()]                   # every reading of the history the reporter has been consistent with so far
+    r, obs, extras, other = build(name, spec)
+    # every reading of the history the reporter has been consistent with so far; a Tagger may apply its change at startTest
+    # (today's code) or right before it forwards the outcome - the statement only knows the tags at the outcome
+    readings = [_Reading(extra=x, late=late) for x in extras for late in ((False, True) if any(x) else (False,))]
     scratch = (set(), set())
     cur = None
     local_then_later = second_run = startless = False
@@ -287,9 +343,12 @@ def run_case(spec):
             alt = [sorted(b.m.current) for b in readings[1:] if b.m.current != readings[0].m.current]
             vs.append(V("current_tags", "%s-after-%s" % (name, step.split("(")[0]),
                         "current_tags is %r, model says %r after %s%s" % (
-                            sorted(got), want, step, " (or %r, depending on how PlaceHolder.run scopes its tags)" % alt if alt else "")))
+                            sorted(got), want, step, " (or %r under the other admitted readings)" % alt if alt else "")))
             return False
-        readings[:] = fit
+        uniq = {}
+        for b in fit:
+            uniq.setdefault(b.key(), b)
+        readings[:] = uniq.values()
         return True
 
     def other_reports(n):
@@ -332,6 +391,14 @@ def run_case(spec):
                     second_run = True
             elif k == "stopTestRun":
                 r.stopTestRun()
+                if name in ON_DEMAND_RUNS:
+                    # an adapter that starts a run by itself when it is used outside one may take the stop for the end of
+                    # the run: whatever comes next (a read of current_tags too) then begins a new run with no tags
+                    forks = [b.fork() for b in readings]
+                    for f in forks:
+                        f.m.start_run()
+                    seen = {b.key() for b in readings}
+                    readings.extend(f for f in forks if f.key() not in seen)
             elif k == "tags":
                 if spec.get("scratch_tags"):
                     # a reporter that refills two scratch sets instead of building new ones for every call
@@ -348,7 +415,7 @@ def run_case(spec):
             elif k == "startTest":
                 cur = H.make_test(op["i"], op["tk"])
                 r.startTest(cur)
-                every(lambda b: (b.m.start_test(), b.m.change(*extra)))
+                every(_Reading.start_test)
                 if local_change_seen:
                     local_then_later = True
             elif k == "outcome":
@@ -357,7 +424,7 @@ def run_case(spec):
             elif k == "stopTest":
                 every(_Reading.stop)
                 r.stopTest(cur)
-                every(lambda b: b.m.stop_test())
+                every(_Reading.stop_test)
             elif k == "startless_skip":
                 t = H.make_test(op["i"], "case")
                 # a Tagger tags at startTest, which never happens here
@@ -379,10 +446,12 @@ def run_case(spec):
                     given.add("later")          # the caller's set, changed after the placeholder was made
                 forks, seen = [], set()
                 for b in readings:
-                    for f in _placeholder_readings(b, op["tags"], extra):
-                        if f.key() not in seen:
-                            seen.add(f.key())
-                            forks.append(f)
+                    # the placeholder has its own copy of the tags (today's code) or goes on looking at the caller's set
+                    for tags in ([op["tags"]] + ([sorted(given)] if given != set(op["tags"]) else [])):
+                        for f in _placeholder_readings(b, tags):
+                            if f.key() not in seen:
+                                seen.add(f.key())
+                                forks.append(f)
                 readings[:] = forks
                 ph.run(r)
             else:
@@ -390,6 +459,11 @@ def run_case(spec):
         except Exception as e:
             if type(e).__module__.startswith("vp."):
                 raise
+            if isinstance(e, ValueError) and _odd_tag_handed_over(op):
+                # the statement does not say which strings are tags: an implementation that refuses an empty tag or one
+                # with a blank at the call that hands it over is outside this history, not wrong about scoping
+                ok = False
+                break
             vs.append(V("call", "%s-%s-raises-%s" % (name, k, type(e).__name__), "%s raised %r at op %d" % (k, e, n)))
             ok = False
             break
